@@ -13,6 +13,239 @@ import (
 func init() {
 	addRules("C12", rulesC12VarintRoom)
 	addRules("C13", rulesC13InflightKey)
+	addRules("C23", rulesC23ReturnedErrorsNotPooled)
+}
+
+// C23: the status of a request is computed by the caller from the error fanoutForward returns — after
+// fanoutForward's deferred clean-up ran. Whatever that error references must therefore not be handed to a
+// pool by that clean-up: the next request would reset and refill the objects, and this request's status would
+// be computed from another request's replica outcomes.
+func rulesC23ReturnedErrorsNotPooled(c *Ctx) {
+	const rel, rule = "pkg/receive", "returned-errors-not-pooled"
+	c.Rule(rule, "nothing reachable from a returned value is put into a pool by the same function", 1)
+	p := c.Load("pkg/receive")
+	if p == nil {
+		return
+	}
+	checked := 0
+	for _, fn := range p.AllFuncs(true) {
+		if !strings.HasSuffix(fn.Pkg.PkgPath, rel) || strings.HasSuffix(p.Fset.Position(fn.Decl.Pos()).Filename, "_test.go") {
+			continue
+		}
+		info := fn.Info()
+		// pooled roots: v in X.Put(v) / X.Put(v[:0]) where X is a pool and v can alias (pointer-like elements)
+		type put struct {
+			obj  types.Object
+			call *ast.CallExpr
+		}
+		var puts []put
+		ast.Inspect(fn.Body(), func(n ast.Node) bool {
+			call, ok := n.(*ast.CallExpr)
+			if !ok || len(call.Args) != 1 {
+				return true
+			}
+			se, ok := unparen(call.Fun).(*ast.SelectorExpr)
+			if !ok || se.Sel.Name != "Put" {
+				return true
+			}
+			if t := info.TypeOf(se.X); t == nil || !strings.Contains(t.String(), "Pool") {
+				return true
+			}
+			a := unparen(call.Args[0])
+			for {
+				if s, ok := a.(*ast.SliceExpr); ok {
+					a = unparen(s.X)
+					continue
+				}
+				break
+			}
+			id, ok := a.(*ast.Ident)
+			if !ok {
+				return true
+			}
+			if o := objOf(info, id); o != nil && aliasingType(o.Type()) {
+				puts = append(puts, put{o, call})
+			}
+			return true
+		})
+		if len(puts) == 0 {
+			continue
+		}
+		checked++
+		for _, pt := range puts {
+			tainted := map[types.Object]bool{pt.obj: true}
+			consts := constituentTypes(pt.obj.Type())
+			external := map[types.Object]bool{} // receiver and parameters: not storage of this call
+			if fn.Decl.Recv != nil {
+				for _, f := range fn.Decl.Recv.List {
+					for _, nm := range f.Names {
+						external[info.Defs[nm]] = true
+					}
+				}
+			}
+			for _, f := range fn.Decl.Type.Params.List {
+				for _, nm := range f.Names {
+					external[info.Defs[nm]] = true
+				}
+			}
+			isT := func(e ast.Expr) bool {
+				hit := false
+				ast.Inspect(e, func(n ast.Node) bool {
+					if id, ok := n.(*ast.Ident); ok && tainted[objOf(info, id)] {
+						hit = true
+					}
+					return !hit
+				})
+				return hit
+			}
+			mark := func(e ast.Expr) bool {
+				if id, ok := unparen(e).(*ast.Ident); ok {
+					if o := objOf(info, id); o != nil && !tainted[o] && !external[o] && canHold(o.Type(), consts, map[types.Type]bool{}) {
+						tainted[o] = true
+						return true
+					}
+				}
+				return false
+			}
+			for changed := true; changed; {
+				changed = false
+				ast.Inspect(fn.Body(), func(n ast.Node) bool {
+					switch v := n.(type) {
+					case *ast.RangeStmt:
+						if isT(v.X) && v.Value != nil && mark(v.Value) {
+							changed = true
+						}
+					case *ast.AssignStmt:
+						if len(v.Lhs) == len(v.Rhs) {
+							for i, r := range v.Rhs {
+								if isT(r) && mark(v.Lhs[i]) {
+									changed = true
+								}
+							}
+						}
+					case *ast.CallExpr:
+						// recv.M(..., tainted, ...) stores into recv (conservative)
+						if se, ok := unparen(v.Fun).(*ast.SelectorExpr); ok && se.Sel.Name != "Put" {
+							for _, a := range v.Args {
+								if isT(a) && mark(se.X) {
+									changed = true
+								}
+							}
+						}
+					}
+					return true
+				})
+			}
+			bad, where := "", p.Pos(pt.call.Pos())
+			ast.Inspect(fn.Body(), func(n ast.Node) bool {
+				if _, isLit := n.(*ast.FuncLit); isLit {
+					return false
+				}
+				if r, ok := n.(*ast.ReturnStmt); ok {
+					for _, e := range r.Results {
+						if isT(e) {
+							bad = "`" + stmtText(p, r) + "` (" + p.Pos(r.Pos()) + ") returns a value that references `" + pt.obj.Name() + "`, which `" + stmtText(p, pt.call) + "` hands to a pool"
+						}
+					}
+				}
+				return true
+			})
+			c.Check(bad == "", rule, rel+"."+fn.Name+"#"+canon(pt.call.Fun), where, "pooled-object-escapes",
+				bad+": the caller reads the returned error after the pool got the objects back, so a concurrent request can reset and refill them and this request's status is computed from another request's replica outcomes")
+		}
+	}
+	if checked == 0 {
+		c.Incomplete(rule, rel, "", "no function that returns objects to a pool found")
+	}
+}
+
+// constituentTypes lists t and every reference type nested in it (what a holder must be able to store in order
+// to share storage with a value of type t).
+func constituentTypes(t types.Type) []types.Type {
+	var out []types.Type
+	seen := map[types.Type]bool{}
+	var rec func(t types.Type)
+	rec = func(t types.Type) {
+		if t == nil || seen[t] {
+			return
+		}
+		seen[t] = true
+		switch u := t.Underlying().(type) {
+		case *types.Pointer:
+			out = append(out, t)
+			rec(u.Elem())
+		case *types.Map:
+			out = append(out, t)
+			rec(u.Key())
+			rec(u.Elem())
+		case *types.Slice:
+			out = append(out, t)
+			rec(u.Elem())
+		case *types.Chan:
+			out = append(out, t)
+			rec(u.Elem())
+		case *types.Array:
+			rec(u.Elem())
+		case *types.Struct:
+			for i := 0; i < u.NumFields(); i++ {
+				rec(u.Field(i).Type())
+			}
+		}
+	}
+	rec(t)
+	return out
+}
+
+// canHold reports whether a value of type t can store (a reference to) a value of one of the given types.
+func canHold(t types.Type, consts []types.Type, seen map[types.Type]bool) bool {
+	if t == nil || seen[t] {
+		return false
+	}
+	seen[t] = true
+	for _, c := range consts {
+		if types.Identical(t, c) {
+			return true
+		}
+	}
+	switch u := t.Underlying().(type) {
+	case *types.Interface:
+		for _, c := range consts {
+			if types.Implements(c, u) {
+				return true
+			}
+		}
+	case *types.Pointer:
+		return canHold(u.Elem(), consts, seen)
+	case *types.Slice:
+		return canHold(u.Elem(), consts, seen)
+	case *types.Array:
+		return canHold(u.Elem(), consts, seen)
+	case *types.Chan:
+		return canHold(u.Elem(), consts, seen)
+	case *types.Map:
+		return canHold(u.Key(), consts, seen) || canHold(u.Elem(), consts, seen)
+	case *types.Struct:
+		for i := 0; i < u.NumFields(); i++ {
+			if canHold(u.Field(i).Type(), consts, seen) {
+				return true
+			}
+		}
+	}
+	return false
+}
+
+// aliasingType: values of the type share storage when copied (pointers, maps, channels, interfaces, and slices /
+// arrays of such; a slice of plain values shares its array too but its elements are copied out by value).
+func aliasingType(t types.Type) bool {
+	switch u := t.Underlying().(type) {
+	case *types.Pointer, *types.Map, *types.Chan, *types.Interface, *types.Signature:
+		return true
+	case *types.Slice:
+		return aliasingType(u.Elem())
+	case *types.Array:
+		return aliasingType(u.Elem())
+	}
+	return false
 }
 
 // C12: every varint write of the postings encoders has room for the widest value it can be given. A delta of
